@@ -19,6 +19,7 @@ type fop struct {
 	Schema string   `json:"schema,omitempty"` // component schema the operation's 200 response refers to
 	PP     bool     `json:"pp,omitempty"`     // the operation's path item declares shared parameters (a component header and an inline query)
 	Via    bool     `json:"via,omitempty"`    // the schema is reached through a component response used by this operation only
+	NoID   bool     `json:"-"`                // the operation has no operationId (ID is then "")
 }
 type fcfg struct {
 	It []string `json:"it"`
@@ -81,6 +82,9 @@ func buildFilterDoc(ops []fop, schemas []string) J {
 			resp = J{"$ref": "#/components/responses/R" + o.ID}
 		}
 		op := J{"operationId": o.ID, "responses": J{"200": resp}}
+		if o.NoID {
+			delete(op, "operationId")
+		}
 		if len(o.Tags) > 0 {
 			ts := []interface{}{}
 			for _, t := range o.Tags {
@@ -420,6 +424,10 @@ func runC16(ctx *Ctx) error {
 		used := map[string]bool{}
 		for i := 0; i < n; i++ {
 			o := fop{Path: []string{"/p", "/q", "/r/{id}"}[r.Intn(3)], Method: methods[r.Intn(len(methods))], Tags: pick(r, alphabet[:4], 3), ID: ids[i]}
+			if r.Chance(15) {
+				// an operation without an id matches no id list: an inclusion list removes it, an exclusion list keeps it
+				o.ID, o.NoID = "", true
+			}
 			if used[o.Method+o.Path] {
 				continue
 			}
@@ -447,6 +455,9 @@ func runC16(ctx *Ctx) error {
 		ops := randOps(r)
 		for j := range ops {
 			ops[j].Path = []string{"/p", "/q", "/r"}[r.Intn(3)]
+			if ops[j].NoID { // the interface comparison below goes by operation id
+				ops[j].ID, ops[j].NoID = ids[j], false
+			}
 		}
 		// de-duplicate method+path again after the path change
 		seen := map[string]bool{}
